@@ -5,6 +5,7 @@ import (
 	"context"
 	"fmt"
 	"grog/internal/hashing"
+	"grog/internal/verifhook"
 
 	"io"
 	"os"
@@ -135,12 +136,14 @@ func (d *DirectoryOutputHandler) Write(
 		)
 	}
 
+	verifhook.Point("dir.write.files", directoryPath)
 	sizeBytes, err := d.uploadFiles(ctx, fileUploads, progress)
 	if err != nil {
 		return nil, fmt.Errorf("failed to upload directory files to cache: %w", err)
 	}
 
 	logger.Debugf("writing directory tree digest %s for %s", treeDigest, directoryPath)
+	verifhook.Point("dir.write.tree", directoryPath)
 	err = d.cas.Write(ctx, treeDigest, bytes.NewReader(marshalledTree))
 
 	if err != nil {
@@ -373,6 +376,7 @@ func (d *DirectoryOutputHandler) Load(
 	}
 
 	logger.Debugf("loading directory tree digest %s for %s", treeDigest, dirPath)
+	verifhook.Point("dir.load.tree", dirPath)
 	treeBytes, err := d.cas.LoadBytes(ctx, treeDigest)
 	if err != nil {
 		return fmt.Errorf("failed to read tree from cache: %w", err)
@@ -402,11 +406,13 @@ func (d *DirectoryOutputHandler) Load(
 		childrenMap[digest.Hash] = child
 	}
 
+	verifhook.Point("dir.load.removeall", dirPath)
 	// Remove the directory if it already exists
 	if err := os.RemoveAll(dirPath); err != nil {
 		return fmt.Errorf("failed to remove directory %s: %w", dirPath, err)
 	}
 
+	verifhook.Point("dir.load.mkdir", dirPath)
 	// Create the root directory
 	if err := os.MkdirAll(dirPath, 0755); err != nil {
 		return fmt.Errorf("failed to create directory %s: %w", dirPath, err)
@@ -504,6 +510,7 @@ func (d *DirectoryOutputHandler) downloadFile(ctx context.Context, digest, local
 	}
 	defer fileReader.Close()
 
+	verifhook.Point("dir.load.create", localPath)
 	file, err := os.Create(localPath)
 	if err != nil {
 		return fmt.Errorf("failed to create file %s: %w", localPath, err)
